@@ -297,7 +297,7 @@ REGISTRY = {
     },
     "C05": {
         "rules": [decomp.rule_absorb_tables, decomp.rule_cutoff_tables, decomp.rule_guard_agree,
-                  decomp.rule_clamp, decomp.rule_use_or_reject, decomp.rule_split_flags, decomp.rule_cache_immut, decomp.rule_cache_typed, decomp.rule_alias_normalised, decomp.rule_renorm_power_siblings, decomp.rule_full_spectrum_before_trim, decomp.rule_delegation_complete, decomp.rule_nonneg_before_sqrt, decomp.rule_partial_selection,
+                  decomp.rule_clamp, decomp.rule_use_or_reject, decomp.rule_split_flags, decomp.rule_cache_immut, decomp.rule_cache_typed, decomp.rule_alias_normalised, decomp.rule_renorm_power_siblings, decomp.rule_full_spectrum_before_trim, decomp.rule_delegation_complete, decomp.rule_nonneg_before_sqrt, decomp.rule_partial_selection, decomp.rule_error_after_clamp,
                   P(iso.rule_iso_claim, only_modules=("quimb.tensor.tensor_core", "quimb.tensor.decomp"), rule="iso-claim[split]")],
         "explanation": (
             "static (constant evaluation of the module-level tables + decision-table extraction + sibling "
